@@ -149,6 +149,16 @@ func (p *Processor) ChargingDataCreate(
 	self := chf_context.GetSelf()
 	ueId := chargingData.SubscriberIdentifier
 
+	// nfConsumerIdentification is mandatory (TS 32.291) but the JSON body may omit it
+	if chargingData.NfConsumerIdentification == nil {
+		logger.ChargingdataPostLog.Errorf("nfConsumerIdentification is missing in the charging data request")
+		problemDetails := &models.ProblemDetails{
+			Status: http.StatusBadRequest,
+			Cause:  "MANDATORY_IE_MISSING",
+		}
+		return nil, "", problemDetails
+	}
+
 	// Open CDR
 	// ChargingDataRef(charging session id):
 	// A unique identifier for a charging data resource in a PLMN
@@ -585,10 +595,16 @@ func sessionChargingReservation(
 		case charging_datatype.REQ_SUBTYPE_RESERVE:
 			var requestedQuota uint64
 
+			// requestedUnit is optional: a usage report without it requests nothing
+			var requestedUnit uint32
+			if unitUsage.RequestedUnit != nil {
+				requestedUnit = uint32(unitUsage.RequestedUnit.TotalVolume)
+			}
+
 			ue.UnitCost[rg] = getUnitCost(ue, rg, sur)
 
 			usedQuota := uint64(totalUsedUnit * ue.UnitCost[rg])
-			requestedQuota = uint64(uint32(unitUsage.RequestedUnit.TotalVolume) * ue.UnitCost[rg])
+			requestedQuota = uint64(requestedUnit * ue.UnitCost[rg])
 			ue.ReservedQuota[rg] -= int64(usedQuota)
 			NeedReserveQuota := !(ue.ReservedQuota[rg] > 0)
 
@@ -639,7 +655,7 @@ func sessionChargingReservation(
 
 			ue.UnitCost[rg] = getUnitCost(ue, rg, sur)
 
-			grantedUnit := min(uint32(serviceUsageRsp.ServiceRating.AllowedUnits), uint32(unitUsage.RequestedUnit.TotalVolume))
+			grantedUnit := min(uint32(serviceUsageRsp.ServiceRating.AllowedUnits), requestedUnit)
 
 			if ue.RatingType[rg] == charging_datatype.REQ_SUBTYPE_RESERVE {
 				unitInformation.Triggers = append(unitInformation.Triggers,
